@@ -26,6 +26,8 @@ type c04Msg struct {
 	// Unrenderable: S/MIME signing with a key type the signer refuses at write time: WriteTo fails before the first
 	// byte, inside the DATA phase
 	Unrenderable bool `json:"unrenderable,omitempty"`
+	// UTF8Sender: the envelope sender has a non-ASCII local part (an internationalised address)
+	UTF8Sender bool `json:"utf8_sender,omitempty"`
 }
 
 type c04Config struct {
@@ -148,7 +150,11 @@ func runC04Case(r *ev.Run, c c04Case) c04Result {
 		for j := 0; j < ms.NRcpt; j++ {
 			rc = append(rc, fmt.Sprintf("r%dm%d@rcpt.example", j, i))
 		}
-		m, err := simpleMsg(fmt.Sprintf("c04-%d", i), fmt.Sprintf("m%d@sender.example", i), rc, ms.Enc, "body of message\r\n.leading dot\r\n")
+		from := fmt.Sprintf("m%d@sender.example", i)
+		if ms.UTF8Sender {
+			from = fmt.Sprintf("m%dtëst@sender.example", i)
+		}
+		m, err := simpleMsg(fmt.Sprintf("c04-%d", i), from, rc, ms.Enc, "body of message\r\n.leading dot\r\n")
 		if err != nil {
 			r.HarnessError("C04 msg: " + err.Error())
 			return c04Result{}
@@ -365,6 +371,8 @@ func c04Configs(thorough bool) []c04Config {
 		{Name: "starttls-mandatory", Caps: []string{"STARTTLS", "8BITMIME"}, CapsTLS: []string{"8BITMIME", "DSN"}, TLS: "mandatory", DSN: "hdrs-never", Msgs: []c04Msg{m(qp, 1)}, MaxDev: 1},
 		{Name: "auth-plain", Caps: []string{"AUTH PLAIN LOGIN", "8BITMIME"}, TLS: "none", Auth: "PLAIN", Msgs: []c04Msg{m(qp, 1), m(qp, 1)}, MaxDev: 1},
 		{Name: "auth-login", Caps: []string{"AUTH LOGIN", "DSN"}, TLS: "none", Auth: "LOGIN", Msgs: []c04Msg{m(qp, 2)}, MaxDev: 1},
+		{Name: "utf8-sender-no-smtputf8", Caps: []string{"8BITMIME", "DSN", "ENHANCEDSTATUSCODES"}, TLS: "none", DSN: "default", Msgs: []c04Msg{{Enc: qp, NRcpt: 1, UTF8Sender: true}, m(qp, 1)}, MaxDev: 1},
+		{Name: "utf8-sender-smtputf8", Caps: all, TLS: "none", Msgs: []c04Msg{{Enc: e8, NRcpt: 2, UTF8Sender: true}}, MaxDev: 1},
 		{Name: "unrenderable-first-of-2", Caps: all, TLS: "none", Msgs: []c04Msg{{Enc: qp, NRcpt: 1, Unrenderable: true}, m(qp, 2)}, MaxDev: 1},
 		{Name: "unrenderable-second-of-3", Caps: all, TLS: "none", DSN: "default", Msgs: []c04Msg{m(qp, 1), {Enc: qp, NRcpt: 2, Unrenderable: true}, m(e8, 1)}, MaxDev: 1},
 		{Name: "implicit-tls-2x1", Caps: []string{"8BITMIME", "DSN", "AUTH PLAIN"}, TLS: "implicit", Auth: "PLAIN", DSN: "default", Msgs: []c04Msg{m(qp, 1), m(e8, 1)}, MaxDev: 1},
